@@ -208,6 +208,23 @@ func (g *Gen) runAll(fnFilter, prop, dump string) *Report {
 			continue
 		}
 		fcs = append(fcs, fc)
+		if sp.Relational {
+			rfc := func() (rfc *FnCtx) {
+				defer func() {
+					if r := recover(); r != nil {
+						rep.Errors = append(rep.Errors, fmt.Sprintf("%s: generator panic in relational pass: %v", name, r))
+						if g.verbose {
+							panic(r)
+						}
+						rfc = nil
+					}
+				}()
+				return g.verifyRelational(fn, sp)
+			}()
+			if rfc != nil {
+				fcs = append(fcs, rfc)
+			}
+		}
 	}
 	g.discharge(fcs, func(o *Oblig) bool {
 		if hasTag(o.Tags, prop) {
